@@ -432,15 +432,21 @@ def _entry_digest(v):
     return dg
 
 
+def _memo():
+    """the router's memo of hexagon rings, if this version of rig keeps one under that name (observed, never relied on)"""
+    m = getattr(ner, "_concentric_hexagons", None)
+    return m if isinstance(m, dict) else {}
+
+
 def cache_snapshot():
-    return [[int(r), _entry_digest(v)] for r, v in sorted(ner._concentric_hexagons.items())]
+    return [[int(r), _entry_digest(v)] for r, v in sorted(_memo().items())]
 
 
 def ring_snapshot():
     """for every radius in the memo, the ring of that radius computed afresh (as the memo stores it: a tuple);
     computed once per radius and process by the library's own generator, never read from the memo"""
     out = []
-    for r in sorted(ner._concentric_hexagons):
+    for r in sorted(_memo()):
         if r not in _RING_DIGESTS:
             _RING_DIGESTS[r] = digest_arg(tuple(geometry.concentric_hexagons(r)))
         out.append([int(r), _RING_DIGESTS[r]])
